@@ -141,7 +141,7 @@ def _own_success_returns(chk, P, K, fn, rule):
         if not all(k5.consistent(en[0], en[1], en[2]) and en[0] >= k5.OPENED for (_, en) in ent):
             continue
         for (e, own, v, rs, gi) in rets:
-            if not own or v is None or not (v.lo <= 0 <= v.hi):
+            if not own or v is None or not (v.lo <= 0 <= v.hi) or 0 in v.ne:
                 continue
             n += 1
             if rs is None or rs.lo < k5.STREAMSET:
